@@ -69,6 +69,8 @@ THEOREMS = [
     "Verif.C09.estimate_dispatch_ols",
     "Verif.C09.estimate_rejects",
     "Verif.C09.estimate_invariant",
+    "Verif.C09.gls_result_def",
+    "Verif.C09.estimate_simple_time_scale",
 ]
 TOL = 1e-9
 AUTO_OPS = ("optpts", "olsauto", "copyauto", "ensolsauto", "optraw")  # max_lag=None: determine_optimal_points and what is built on it
@@ -172,6 +174,8 @@ def auto_variants(case):
     search must not depend on the length unit: optimal_points_scale) and one more, cycling with the content of the case"""
     f = case["frames"][0] if case["kind"] == "ens" and case["frames"] else case["frames"]
     key = len(f) + int(sum(f)) + len(case.get("variants", []))
+    if len(f) > 12:  # (the model's MSD is O(n^2) per lag)
+        return ("base", "scale" if key % 2 else BASIC[key % len(BASIC)])
     return ("base", "scale", BASIC[key % len(BASIC)], "far" if key % 3 == 0 else "base")
 
 
@@ -187,7 +191,7 @@ def expand(case):
                     "fdtype": case.get("fdtype")}
             a2 = case["meta"]["a"] ** 2 if v == "scale" else 1.0
             for op in case["ops"]:
-                if op in AUTO_OPS and v not in auto_variants(case):
+                if op in AUTO_OPS and (v not in auto_variants(case) or (op == "copyauto" and v == "scale" and len(frames) > 6)):
                     continue
                 c = dict(base, op=op)
                 if op in ("msd", "kmsd", "ols"):
@@ -622,7 +626,8 @@ def agree(case, i, ia, ma):
             if pm == "nonfinite":
                 if not isinstance(pa, float):
                     return False
-            elif not near(pa, pm, max(abs(pm), EST_SCALE(case)[j]), 1e-7):
+            elif not near(pa, pm, max(abs(pm), EST_SCALE(case)[j]), 1e-5 if calls_of(case)[i]["req"]["method"] == "gls" else 1e-7):
+                # (GLS: np.linalg.inv of the covariance matrix in doubles vs exact elimination, iterated)
                 return False
         return True
     if op == "glsupd" and ma == "singular":
@@ -1727,7 +1732,7 @@ OPTRAW_LES = ["zero", 0.0, "inf", "nan", 1e-9, 1e-3, 0.01, 0.1, 0.25, 0.5, 1.0, 
 
 
 EST_TRACKS = [  # (frames, coords in px): no missing frames / missing frames / too short for the lag search / minimal
-    ([3, 4, 5, 6, 7, 8, 9], [0.0, 1.25, 0.5, 2.0, 1.75, 3.5, 2.25]),
+    ([3, 4, 5, 6, 7, 8], [0.0, 1.25, 0.5, 2.0, 1.75, 3.5]),
     ([0, 1, 3, 4, 7, 8, 9], [1.0, 0.25, 1.5, 3.0, 2.5, 2.75, 4.0]),
     ([2, 3, 4, 5], [0.0, 1.0, 0.5, 2.0]),
     ([0, 2, 3], [0.5, 0.0, 1.5]),
@@ -2108,6 +2113,19 @@ def _cases(tier, rng):
     yield from optraw_scope(quick)
     yield from glsupd_scope(quick)
     yield from est_scope(quick)
+    r = rng.fork("c09-gls")  # the GLS iteration itself: tracks of 3..7 points without missing frames (exact elimination in the model)
+    for i in range(8 if quick else 400):
+        sub = r.fork(i)
+        n = sub.choice([3, 4, 5, 5, 6] + ([6] if quick else [7, 7]))
+        sig, step = sub.choice([0.0, 0.3, 1.0, 3.0]), sub.choice([0.0, 0.25, 1.0])
+        p, coords = sub.randint(-256, 256) / 64, []
+        for _ in range(n):
+            p += sub.normal() * step
+            coords.append(round((p + sub.normal() * sig) * 64) / 64)
+        f0 = sub.choice([0, 3, sub.randint(0, 200)])
+        reqs = [{"method": "gls", "L": L, "lv": None, "vlv": None} for L in (None, sub.choice([0, 2, 3, 4, n - 1, n, n + 2]))]
+        yield {"stream": "random", "kind": "est", "subseed": i, "frames": list(range(f0, f0 + n)), "coords": coords,
+               "px": sub.choice(EXACT_PX), "dt": sub.choice(DTS), "blur": 0, "fdtype": sub.choice(FDTYPES), "reqs": reqs}
     r = rng.fork("c09-est")  # the dispatcher on random tracks: a few requests each, mostly valid ones
     for i in range(40 if quick else 600):
         sub = r.fork(i)
